@@ -310,7 +310,7 @@ def run(ck: Check) -> None:
     if bad_d or bad_u or bad_m or bad_s:
         # Distributor: every disagreeing case (where model and implementation agree the property holds by
         # C05_model_satisfies_spec / C05_grad_blocks_same_index_sets, so nothing is lost by not re-checking those)
-        cidx = sorted(set(bad_d) | set(bad_u))
+        cidx = sorted(set(bad_d) | set(bad_u), key=lambda i: (math.prod(dwork[i][0]), len(dwork[i][0]), i))[:4000]   # smallest first; bounded cost
         citems = []
         for i in cidx:
             w, r = dwork[i], dres[i]
@@ -329,7 +329,7 @@ def run(ck: Check) -> None:
                 failing.append((math.prod(w[0]), len(w[0]), w[1], i, f))
         # utilities: disagreeing cases only (merge: legal grouping; split: tiling of the input tensor)
         uitems, uidx = [], []
-        for i in bad_m:
+        for i in bad_m[:160]:
             (sh, thr), r = mwork[i], mres[i]
             uidx.append(("merge", i))
             uitems.append("false" if "exc" in r else
@@ -348,8 +348,10 @@ def run(ck: Check) -> None:
             what = {"blocks": "parameter blocks are not an exact tiling by narrows of the (legally merged) parameter with dims <= max_preconditioner_dim, or are not views of its storage",
                     "grad-blocks": "gradient blocks do not cover the same index sets as the parameter blocks (or are not views of the gradient)",
                     "update": "update_params did not add direction k exactly to the elements block k addresses"}[f[0]]
+            if "exc" in r:
+                what = f"construction / merge_and_block_gradients / update_params raised {r['exc']}"
             ck.report(None, f"Distributor violates C05 on shape={list(w[0])} max_preconditioner_dim={w[1]} use_merge_dims={w[2]}: {what}"
-                            + (f" (exception {r['exc']})" if "exc" in r else f"; blocks={r['pb'][:6]}"),
+                            + ("" if "exc" in r else f"; blocks={r['pb'][:6]}"),
                       {"kind": "distributor", "shape": list(w[0]), "thr": w[1], "merge": w[2], "failed_predicates": f, "impl": r,
                        "n_failing": len(failing), "predicate": "C05_checkb / C05_grad_checkb / update_okb on the implementation's output, and storage identity"})
         if ufail:
